@@ -6,3 +6,6 @@ import TV.Properties.C09
 #print axioms TV.C09.C09_blocked_only_when_busy
 #print axioms TV.C09.C09_full_branch_threshold
 #print axioms TV.C09.C09_resume
+#print axioms TV.C09.C09_model_passes_monitor_workers
+#print axioms TV.C09.C09_model_passes_monitor_work_conserving
+#print axioms TV.C09.C09_model_passes_monitor_backpressure
